@@ -85,7 +85,7 @@ def bounds(tier):
     if tier == 'quick':
         return {'classes': QUICK_CLASSES, 'datatypes': ['real', 'complex'], 'depth': 3, 'events_per_class': '22-30',
                 'cross_type_data': 'depth 2', 'start_states': 'fresh object; object with a computed PSD'}
-    return {'classes': ALL_CLASSES, 'datatypes': ['real', 'complex'], 'depth': 5, 'events_per_class': '22-30',
+    return {'classes': ALL_CLASSES, 'datatypes': ['real', 'complex'], 'depth': '5 for %s, 4 for the other eight classes' % QUICK_CLASSES, 'events_per_class': '22-30',
             'cross_type_data': 'depth 3, data= switches real<->complex'}
 
 
@@ -129,8 +129,10 @@ def events_for(cls, dt, cross=False):
 def shards(tier):
     out = []
     classes = QUICK_CLASSES if tier == 'quick' else ALL_CLASSES
-    depth = 3 if tier == 'quick' else 5
     for cls in classes:
+        # thorough: depth 5 for the four classes that cover the four families of setters (Fourier, lag-window, AR, ARMA), depth 4 for the other eight
+        # (the menu grew to 30+ events; depth 5 for all twelve takes an hour)
+        depth = 3 if tier == 'quick' else (5 if cls in QUICK_CLASSES else 4)
         for dt in ('real', 'complex'):
             for e1 in events_for(cls, dt):
                 out.append(('bfs', cls, dt, depth, [list(e1)], False))
